@@ -211,6 +211,20 @@ impl Chg {
     }
 }
 
+/// The optional <Btch> header of NtryDtls.
+#[derive(Clone, Copy, PartialEq, Eq, Debug)]
+enum Bm {
+    /// NbOfTxs = number of TxDtls (max 1), TtlAmt, CdtDbtInd
+    Right,
+    /// no <Btch> element at all (as the "Closing entry balance" entry of okane's sample file)
+    Absent,
+    /// NbOfTxs one smaller / one larger than the number of TxDtls: the statement contradicts itself
+    Smaller,
+    Larger,
+    /// <Btch> with TtlAmt and CdtDbtInd but without NbOfTxs (optional in ISO 20022)
+    NoNb,
+}
+
 /// Where a zero figure sits inside a batch (details still sum, with signs, to the entry).
 #[derive(Clone, Copy, PartialEq, Eq, Debug)]
 enum Lay {
@@ -234,6 +248,8 @@ struct Shape {
     lay: Lay,
     /// NtryDtls/Btch rendered (always when k > 0)
     btch: bool,
+    /// what the <Btch> element of a batch (k >= 1) says
+    bm: Bm,
     entry_chg: Chg,
     det_chg: [Chg; 3],
     /// AmtDtls (InstdAmt, TxAmt) rendered in the j-th TxDtls
@@ -241,26 +257,31 @@ struct Shape {
 }
 
 const fn sh(name: &'static str, k: usize, btch: bool, entry_chg: Chg, d0: Chg, d1: Chg, amt_dtls: bool) -> Shape {
-    Shape { name, k, opp: None, lay: Lay::Std, btch, entry_chg, det_chg: [d0, d1, Chg::None], amt: [amt_dtls; 3] }
+    Shape { name, k, opp: None, lay: Lay::Std, btch, bm: Bm::Right, entry_chg, det_chg: [d0, d1, Chg::None], amt: [amt_dtls; 3] }
 }
 
 /// batch with one detail of the opposite indicator
 const fn shm(name: &'static str, k: usize, opp: Option<usize>, d1: Chg, amt_dtls: bool) -> Shape {
-    Shape { name, k, opp, lay: Lay::Std, btch: true, entry_chg: Chg::None, det_chg: [Chg::None, d1, Chg::None], amt: [amt_dtls; 3] }
+    Shape { name, k, opp, lay: Lay::Std, btch: true, bm: Bm::Right, entry_chg: Chg::None, det_chg: [Chg::None, d1, Chg::None], amt: [amt_dtls; 3] }
 }
 
 /// heterogeneous batch: every detail carries one included detail-level charge; `t` = index of the only detail that
 /// also has AmtDtls (TxAmt = amount net of the charge, i.e. TxAmt != Amt), the others have no AmtDtls at all
 const fn shh(name: &'static str, k: usize, opp: Option<usize>, t: usize) -> Shape {
-    Shape { name, k, opp, lay: Lay::Std, btch: true, entry_chg: Chg::None, det_chg: [Chg::Incl; 3], amt: [t == 0, t == 1, t == 2] }
+    Shape { name, k, opp, lay: Lay::Std, btch: true, bm: Bm::Right, entry_chg: Chg::None, det_chg: [Chg::Incl; 3], amt: [t == 0, t == 1, t == 2] }
+}
+
+/// plain batch of k details with a given <Btch> header
+const fn shb(name: &'static str, k: usize, bm: Bm) -> Shape {
+    Shape { name, k, opp: None, lay: Lay::Std, btch: true, bm, entry_chg: Chg::None, det_chg: [Chg::None; 3], amt: [false; 3] }
 }
 
 /// batch with a zero figure
 const fn shz(name: &'static str, k: usize, lay: Lay, d1: Chg, amt_dtls: bool) -> Shape {
-    Shape { name, k, opp: None, lay, btch: true, entry_chg: Chg::None, det_chg: [Chg::None, d1, Chg::None], amt: [amt_dtls; 3] }
+    Shape { name, k, opp: None, lay, btch: true, bm: Bm::Right, entry_chg: Chg::None, det_chg: [Chg::None, d1, Chg::None], amt: [amt_dtls; 3] }
 }
 
-const SHAPES: [Shape; 48] = [
+const SHAPES: [Shape; 57] = [
     sh("k0", 0, false, Chg::None, Chg::None, Chg::None, false),
     sh("k0-btch", 0, true, Chg::None, Chg::None, Chg::None, false),
     sh("k1", 1, true, Chg::None, Chg::None, Chg::None, false),
@@ -315,6 +336,16 @@ const SHAPES: [Shape; 48] = [
     shz("k3-zero-mid", 3, Lay::ZeroAt(1), Chg::None, false),
     shz("k2-zero-amtdtls", 2, Lay::ZeroAt(1), Chg::None, true),
     shz("k2-txamt-zero", 2, Lay::TinyLast, Chg::Incl, true),
+    // the <Btch> header of a batch: absent, NbOfTxs too small / too large, NbOfTxs missing
+    shb("k1-nobtch", 1, Bm::Absent),
+    shb("k2-nobtch", 2, Bm::Absent),
+    shb("k3-nobtch", 3, Bm::Absent),
+    shb("k2-btch-smaller", 2, Bm::Smaller),
+    shb("k3-btch-smaller", 3, Bm::Smaller),
+    shb("k2-btch-larger", 2, Bm::Larger),
+    shb("k3-btch-larger", 3, Bm::Larger),
+    shb("k2-btch-nonb", 2, Bm::NoNb),
+    shb("k3-btch-nonb", 3, Bm::NoNb),
 ];
 
 /// the shapes up to here form the pair alphabet of the thorough tier (the later ones are in F1 only)
@@ -541,7 +572,15 @@ fn render_entry(out: &mut String, stmt: &Stmt, i: usize) {
     render_charges(out, stmt, "        ", s.entry_chg, ENTRY_CHARGE);
     if s.btch || s.k > 0 {
         out.push_str("        <NtryDtls>\n");
-        out.push_str(&format!("          <Btch>\n            <NbOfTxs>{}</NbOfTxs>\n            <TtlAmt Ccy=\"{}\">{}</TtlAmt>\n            <CdtDbtInd>{}</CdtDbtInd>\n          </Btch>\n", s.k.max(1), stmt.ccy(), stmt.m(a), cd));
+        let nb = match s.bm {
+            Bm::Right => Some(s.k.max(1)),
+            Bm::Smaller => Some(s.k - 1),
+            Bm::Larger => Some(s.k + 1),
+            Bm::NoNb | Bm::Absent => None,
+        };
+        if s.bm != Bm::Absent {
+            out.push_str(&format!("          <Btch>\n{}            <TtlAmt Ccy=\"{}\">{}</TtlAmt>\n            <CdtDbtInd>{}</CdtDbtInd>\n          </Btch>\n", nb.map(|n| format!("            <NbOfTxs>{}</NbOfTxs>\n", n)).unwrap_or_default(), stmt.ccy(), stmt.m(a), cd));
+        }
         for (j, (da, dside)) in e.details().iter().enumerate() {
             let dcd = if *dside == Side::Credit { "CRDT" } else { "DBIT" };
             out.push_str("          <TxDtls>\n");
@@ -963,7 +1002,28 @@ fn funding(stmt: &Stmt, account: &str) -> String {
     format!("1990/01/01 * funding\n    {}    {} {}\n    Equity:Opening    {} {}\n\n", account, stmt.m(stmt.opening), stmt.ccy(), stmt.m(-stmt.opening), stmt.ccy())
 }
 
+/// Statements whose <Btch> header contradicts the TxDtls it heads (NbOfTxs too small / too large) are not
+/// consistent statements: they are executed and what happens is recorded, never judged.
 fn judge(sc: &Scratch, stmt: &Stmt, xml: &str, txns_compared: &mut u64) -> Outcome {
+    let out = judge_consistent(sc, stmt, xml, txns_compared);
+    let reason = if stmt.entries.iter().any(|e| matches!(e.shape().bm, Bm::Smaller | Bm::Larger)) {
+        "btch-count-contradicts-details"
+    } else if stmt.entries.iter().any(|e| e.shape().bm == Bm::NoNb) && NONB_IS_DONT_CARE {
+        "btch-without-nbofxs"
+    } else {
+        return out;
+    };
+    match out.verdict {
+        crate::fw::Verdict::Pass => Outcome::dont_care(format!("dc/{}/imported-all-details-and-conserved", reason)),
+        crate::fw::Verdict::DontCare => Outcome::dont_care(format!("dc/{}/{}", reason, out.class.trim_start_matches("dc/"))),
+        crate::fw::Verdict::Violation { sig, .. } => Outcome::dont_care(format!("dc/{}/{}", reason, sig.split('@').next().unwrap_or(""))),
+    }
+}
+
+/// see NOTES.md follow-up 8
+const NONB_IS_DONT_CARE: bool = true;
+
+fn judge_consistent(sc: &Scratch, stmt: &Stmt, xml: &str, txns_compared: &mut u64) -> Outcome {
     let exp = expected(stmt);
     let account = stmt.cfg.account.as_str();
     // --- the configuration as okane resolves it for the statement file (layered fragments: the most specific wins)
@@ -1151,7 +1211,7 @@ fn families(thorough: bool) -> Vec<Family> {
     let all_dates = [Dates::Same, Dates::BookLater, Dates::BookEarlier, Dates::ValueAbsent, Dates::BookDtTmOnly];
     let all_shapes: Vec<usize> = (0..SHAPES.len()).collect();
     let idx = |names: &[&str]| -> Vec<usize> { names.iter().map(|n| shape_idx(n)).collect() };
-    // E: 2 x 3 x 5 x 48 = 1440
+    // E: 2 x 3 x 5 x 57 = 1710
     let full = alphabet(&both, &all_amts, &all_dates, &all_shapes);
     // Ep: 2 x 3 x 5 x 38 = 1140 (E without the four zero/empty-<Chrgs> shapes)
     let pairs = alphabet(&both, &all_amts, &all_dates, &all_shapes[..PAIR_SHAPES]);
